@@ -33,6 +33,7 @@
 #include <glm/gtx/matrix_cross_product.hpp>
 #include <utility>
 
+#define NOINLINE __attribute__((noinline))
 namespace rl = reflinalg;
 using rl::Mx;
 using rl::Vx;
@@ -49,6 +50,20 @@ template <class T, glm::qualifier Q> static const std::string& tqn() {
 	return s;
 }
 static std::string shp(int C, int Rw) { char b[24]; snprintf(b, sizeof b, "mat%dx%d", C, Rw); return b; }
+
+// ---- instantiation units. Every GLM expression of this harness sits in `if constexpr (HAVE(kind, s1, s2))`; the generated header
+// c02_have.hpp (syntax-only pre-pass of lib/specs/C02.py, which compiles this very file with C02_PROBE and its own c02_have) lists the
+// units whose body does not instantiate for an element type; they are skipped here and reported by the `instantiation` target.
+enum { K_MUL, K_MULC, K_MV, K_VM, K_TRANSPOSE, K_OUTER, K_COMPMULT, K_ELEM, K_ACCESS, K_CONV, K_CTOR, K_SQUARE, K_CROSS, K_DIAG, K_DIV, K_COUNT };
+#ifndef C02_PROBE
+#include "c02_have.hpp"  // constexpr bool c02_have(int kind, int s1, int s2, int ty); C02_MISSING(X); C02_UNITS_PROBED
+#endif
+template <class T> struct TBase;
+#define TBASE(T_, I_) template <> struct TBase<T_> { static const int id = I_; };
+TBASE(float, 0) TBASE(double, 1) TBASE(glm::int8, 2) TBASE(glm::uint8, 3) TBASE(glm::int16, 4) TBASE(glm::uint16, 5) TBASE(glm::int32, 6) TBASE(glm::uint32, 7) TBASE(glm::int64, 8) TBASE(glm::uint64, 9)
+template <class T, glm::qualifier Q> constexpr int tyid() { return TBase<T>::id + 16 * (Q == glm::highp ? 0 : Q == glm::mediump ? 1 : 2); }
+constexpr int shx(int C, int Rw) { return (C - 2) * 3 + (Rw - 2); }
+#define HAVE(kind, s1, s2) c02_have(kind, s1, s2, tyid<T, Q>())
 
 enum { VC_SMALL = 0, VC_ALT = 1, VC_GENERAL = 2, VC_ZEROS = 3 };
 enum { ALT_DYADIC, ALT_LARGE, ALT_WRAP };
@@ -182,35 +197,35 @@ template <class T> static inline Mx<T> asM(const Vx<T>& v) { Mx<T> m(1, v.L); fo
 static inline Mx<LD> asM(const LD* v, int L) { Mx<LD> m(1, L); for (int i = 0; i < L; ++i) m.e[0][i] = v[i]; return m; }
 
 // =============================================================================================
-// comparison
-template <class T> static inline bool eqv(T a, T b) { if constexpr (std::is_floating_point<T>::value) return fp::same_value(a, b); else return a == b; }
-template <class T> static inline bool eqb(T a, T b) { return memcmp(&a, &b, sizeof(T)) == 0; }
-enum { CMP_VALUE = 0, CMP_BITS = 1 };
-// index c*4+r of the first mismatch, -1 if none
-template <class T> __attribute__((noinline)) static int mdiff(pbt::Ctx& c, const Mx<T>& g, const Mx<T>& w, int mode) {
-	for (int i = 0; i < w.C; ++i) for (int r = 0; r < w.R; ++r) {
-		if (mode == CMP_BITS ? !eqb(g.e[i][r], w.e[i][r]) : !eqv(g.e[i][r], w.e[i][r])) return i * 4 + r;
-		if (mode == CMP_VALUE && !eqb(g.e[i][r], w.e[i][r])) c.cls("zero-sign-differs(counted)");
-	}
-	return -1;
-}
-// inputs are described lazily (only when a failure is reported) through a type-erased thunk, so the checking code is
-// instantiated once per element type and not once per call site
+// comparison. Keys and input descriptions are produced lazily (only when a failure is reported) through type-erased thunks, so the
+// checking code is instantiated once per element type, not once per shape or call site.
 struct In {
 	std::string (*fn)(const void*);
 	const void* ctx;
 	std::string operator()() const { return fn(ctx); }
 };
 template <class L> static inline In mk(const L& l) { return In{[](const void* p) { return (*static_cast<const L*>(p))(); }, &l}; }
-template <class T> __attribute__((noinline)) static void mfail(pbt::Ctx& c, const std::string& key, int idx, const Mx<T>& g, const Mx<T>& w, const std::string& inputs) {
+
+template <class T> static inline bool eqv(T a, T b) { if constexpr (std::is_floating_point<T>::value) return fp::same_value(a, b); else return a == b; }
+template <class T> static inline bool eqb(T a, T b) { return memcmp(&a, &b, sizeof(T)) == 0; }
+enum { CMP_VALUE = 0, CMP_BITS = 1 };
+// index c*4+r of the first mismatch, -1 if none
+template <class T> NOINLINE static int mdiff(pbt::Ctx& c, const Mx<T>& g, const Mx<T>& w, int mode) {
+	for (int i = 0; i < w.C; ++i) for (int r = 0; r < w.R; ++r) {
+		if (mode == CMP_BITS ? !eqb(g.e[i][r], w.e[i][r]) : !eqv(g.e[i][r], w.e[i][r])) return i * 4 + r;
+		if (mode == CMP_VALUE && !eqb(g.e[i][r], w.e[i][r])) c.cls("zero-sign-differs(counted)");
+	}
+	return -1;
+}
+template <class T> NOINLINE static void mfail(pbt::Ctx& c, const std::string& key, int idx, const Mx<T>& g, const Mx<T>& w, const std::string& inputs) {
 	c.failk(key, "result[%d][%d] = %s, expected %s; %s; got %s, expected %s", idx / 4, idx % 4, rl::num(g.e[idx / 4][idx % 4]).c_str(), rl::num(w.e[idx / 4][idx % 4]).c_str(),
 	        inputs.c_str(), rl::str(g).c_str(), rl::str(w).c_str());
 }
 // exact classes: VALUE/BITS against `want`; general floats with an inner product of length K: |got - exact| <= 8 K u scale
-template <class T> __attribute__((noinline)) static void judge(pbt::Ctx& c, int cls, const std::string& opkey, const Mx<T>& got, const Mx<T>& want, const Mx<LD>* ex, const Mx<LD>* sc, int K, int mode, const char* metric, In inputs) {
+template <class T> NOINLINE static void judge(pbt::Ctx& c, int cls, In opkey, const Mx<T>& got, const Mx<T>& want, const Mx<LD>* ex, const Mx<LD>* sc, int K, int mode, const char* metric, In inputs) {
 	if (cls != VC_GENERAL || !ex) {
 		int i = mdiff(c, got, want, mode);
-		if (i >= 0) mfail(c, opkey + "/" + vcname<T>(cls), i, got, want, inputs());
+		if (i >= 0) mfail(c, opkey() + "/" + vcname<T>(cls), i, got, want, inputs());
 		return;
 	}
 	if constexpr (VT<T>::flt) {
@@ -222,68 +237,79 @@ template <class T> __attribute__((noinline)) static void judge(pbt::Ctx& c, int 
 			bool bad = !(err <= tol);  // NaN/inf in the result fails
 			c.metric(metric, bad && !(err == err) ? 1e30 : (double)(err / tol));
 			if (bad) {
-				c.failk(opkey + "/general", "result[%d][%d] = %.17g, sum of products %.21Lg, |error| %.3Lg exceeds 8*K*u*sum|a_k b_k| = %.3Lg (K=%d); %s", i, r, (double)got.e[i][r], ex->e[i][r], err, tol, K,
+				c.failk(opkey() + "/general", "result[%d][%d] = %.17g, sum of products %.21Lg, |error| %.3Lg exceeds 8*K*u*sum|a_k b_k| = %.3Lg (K=%d); %s", i, r, (double)got.e[i][r], ex->e[i][r], err, tol, K,
 				        inputs().c_str());
 				return;
 			}
 		}
 	}
 }
+static void skipped(pbt::Ctx& c) { c.cls("uninstantiable unit skipped (see target instantiation)"); }
 
 // =============================================================================================
-// mul: mat<C,Rw> * mat<C2,C> -> mat<C2,Rw>
-template <int C, int Rw, int C2, class T, glm::qualifier Q> static void t_mul(pbt::Ctx& c) {
-	static const std::string op = shp(C, Rw) + "*" + shp(C2, C) + "/" + tqn<T, Q>(), opc = shp(C, Rw) + "*=" + shp(C2, C) + "/" + tqn<T, Q>();
-	const int cls = pick<T>(c);
-	Src<T> s(c, cls, C * Rw + C2 * C);
-	Mx<T> a(C, Rw), b(C2, C);
-	fill(s, a); fill(s, b);
-	c.cls(vcname<T>(cls));
-	Distinct<T> d(s.latin); d.add(a); d.add(b);
+// mul: mat<C,Rw> * mat<C2,C> -> mat<C2,Rw>   (shape-independent prepare / finish, shape-specific GLM call)
+template <class T> struct MulCase { int cls; Mx<T> a, b, want; Mx<LD> ex, sc; };
+template <class T> NOINLINE static void mul_prepare(pbt::Ctx& c, const std::string& tq, int C, int Rw, int C2, MulCase<T>& k) {
+	k.cls = pick<T>(c);
+	Src<T> s(c, k.cls, C * Rw + C2 * C);
+	k.a = Mx<T>(C, Rw); k.b = Mx<T>(C2, C);
+	fill(s, k.a); fill(s, k.b);
+	c.cls(vcname<T>(k.cls));
+	Distinct<T> d(s.latin); d.add(k.a); d.add(k.b);
 	if (d.good()) c.nontrivial();
-	if (c.verbose) c.logf("%s (%s) A=%s B=%s", op.c_str(), vcname<T>(cls), rl::str(a).c_str(), rl::str(b).c_str());
-	Mx<LD> ex(C2, Rw), sc(C2, Rw);
-	Mx<T> want = rl::mul(a, b, &ex, &sc);
-	auto in = [&] { return "A=" + rl::str(a) + " B=" + rl::str(b); };
-	glm::mat<C, Rw, T, Q> A = toG<C, Rw, T, Q>(a);
-	glm::mat<C2, C, T, Q> B = toG<C2, C, T, Q>(b);
-	glm::mat<C2, Rw, T, Q> P = A * B;
-	judge(c, cls, op, fromG(P), want, &ex, &sc, C, CMP_VALUE, "mat*mat err/tol", mk(in));
+	k.ex = Mx<LD>(C2, Rw); k.sc = Mx<LD>(C2, Rw);
+	k.want = rl::mul(k.a, k.b, &k.ex, &k.sc);
+	if (c.verbose) c.logf("%s*%s %s (%s) A=%s B=%s", shp(C, Rw).c_str(), shp(C2, C).c_str(), tq.c_str(), vcname<T>(k.cls), rl::str(k.a).c_str(), rl::str(k.b).c_str());
+}
+template <class T> NOINLINE static void mul_finish(pbt::Ctx& c, const std::string& tq, const MulCase<T>& k, const Mx<T>& got, bool compound, bool self_ok) {
+	auto key = [&] { return shp(k.a.C, k.a.R) + (compound ? "*=" : "*") + shp(k.b.C, k.b.R) + "/" + tq; };
+	auto in = [&] { return "A=" + rl::str(k.a) + " B=" + rl::str(k.b); };
+	judge(c, k.cls, mk(key), got, k.want, &k.ex, &k.sc, k.a.C, CMP_VALUE, compound ? "mat*=mat err/tol" : "mat*mat err/tol", mk(in));
+	if (!self_ok) c.failk(key() + "/returns-self", "m *= m2 does not return a reference to m");
+}
+template <int C, int Rw, int C2, class T, glm::qualifier Q> static void t_mul(pbt::Ctx& c) {
+	MulCase<T> k;
+	mul_prepare<T>(c, tqn<T, Q>(), C, Rw, C2, k);
+	if constexpr (HAVE(K_MUL, shx(C, Rw), C2)) {
+		glm::mat<C2, Rw, T, Q> P = toG<C, Rw, T, Q>(k.a) * toG<C2, C, T, Q>(k.b);
+		mul_finish(c, tqn<T, Q>(), k, fromG(P), false, true);
+	} else skipped(c);
 	if constexpr (C == Rw && C2 == C) {
-		glm::mat<C, Rw, T, Q> X = A;
-		glm::mat<C, Rw, T, Q>* p = &(X *= B);
-		judge(c, cls, opc, fromG(X), want, &ex, &sc, C, CMP_VALUE, "mat*=mat err/tol", mk(in));
-		if (p != &X) c.failk(opc + "/returns-self", "m *= m2 does not return a reference to m");
+		if constexpr (HAVE(K_MULC, C, 0)) {
+			glm::mat<C, Rw, T, Q> X = toG<C, Rw, T, Q>(k.a);
+			glm::mat<C, Rw, T, Q>* p = &(X *= toG<C2, C, T, Q>(k.b));
+			mul_finish(c, tqn<T, Q>(), k, fromG(X), true, p == &X);
+		} else skipped(c);
 	}
 }
 
 // mulvec: mat<C,Rw> * vec<C> -> vec<Rw>;  vec<Rw> * mat<C,Rw> -> vec<C>
-template <int C, int Rw, class T, glm::qualifier Q> static void t_mulvec(pbt::Ctx& c) {
-	static const std::string op1 = shp(C, Rw) + "*vec" + std::to_string(C) + "/" + tqn<T, Q>(), op2 = "vec" + std::to_string(Rw) + "*" + shp(C, Rw) + "/" + tqn<T, Q>();
-	const int cls = pick<T>(c);
-	Src<T> s(c, cls, C * Rw + C + Rw);
-	Mx<T> a(C, Rw);
-	Vx<T> v(C), w(Rw);
-	fill(s, a); fill(s, v); fill(s, w);
-	c.cls(vcname<T>(cls));
-	Distinct<T> d(s.latin); d.add(a); d.add(v); d.add(w);
+template <class T> struct MvCase { int cls; Mx<T> a; Vx<T> v, w, want1, want2; Mx<LD> ex1, sc1, ex2, sc2; };
+template <class T> NOINLINE static void mv_prepare(pbt::Ctx& c, const std::string& tq, int C, int Rw, MvCase<T>& k) {
+	k.cls = pick<T>(c);
+	Src<T> s(c, k.cls, C * Rw + C + Rw);
+	k.a = Mx<T>(C, Rw); k.v = Vx<T>(C); k.w = Vx<T>(Rw);
+	fill(s, k.a); fill(s, k.v); fill(s, k.w);
+	c.cls(vcname<T>(k.cls));
+	Distinct<T> d(s.latin); d.add(k.a); d.add(k.v); d.add(k.w);
 	if (d.good()) c.nontrivial();
-	if (c.verbose) c.logf("%s, %s (%s) M=%s v=%s w=%s", op1.c_str(), op2.c_str(), vcname<T>(cls), rl::str(a).c_str(), rl::str(v).c_str(), rl::str(w).c_str());
-	glm::mat<C, Rw, T, Q> A = toG<C, Rw, T, Q>(a);
-	{
-		LD ex[4], sc[4];
-		Vx<T> want = rl::mul_mv(a, v, ex, sc);
-		glm::vec<Rw, T, Q> g = A * toGv<C, T, Q>(v);
-		Mx<LD> mex = asM(ex, Rw), msc = asM(sc, Rw);
-		judge(c, cls, op1, asM(fromGv(g)), asM(want), &mex, &msc, C, CMP_VALUE, "mat*vec err/tol", mk([&] { return "M=" + rl::str(a) + " v=" + rl::str(v); }));
-	}
-	{
-		LD ex[4], sc[4];
-		Vx<T> want = rl::mul_vm(w, a, ex, sc);
-		glm::vec<C, T, Q> g = toGv<Rw, T, Q>(w) * A;
-		Mx<LD> mex = asM(ex, C), msc = asM(sc, C);
-		judge(c, cls, op2, asM(fromGv(g)), asM(want), &mex, &msc, Rw, CMP_VALUE, "vec*mat err/tol", mk([&] { return "v=" + rl::str(w) + " M=" + rl::str(a); }));
-	}
+	LD ex[4], sc[4];
+	k.want1 = rl::mul_mv(k.a, k.v, ex, sc); k.ex1 = asM(ex, Rw); k.sc1 = asM(sc, Rw);
+	k.want2 = rl::mul_vm(k.w, k.a, ex, sc); k.ex2 = asM(ex, C); k.sc2 = asM(sc, C);
+	if (c.verbose) c.logf("%s*vec%d, vec%d*%s %s (%s) M=%s v=%s w=%s", shp(C, Rw).c_str(), C, Rw, shp(C, Rw).c_str(), tq.c_str(), vcname<T>(k.cls), rl::str(k.a).c_str(), rl::str(k.v).c_str(), rl::str(k.w).c_str());
+}
+template <class T> NOINLINE static void mv_finish(pbt::Ctx& c, const std::string& tq, const MvCase<T>& k, const Vx<T>& got, bool vm) {
+	auto key = [&] { return vm ? "vec" + std::to_string(k.a.R) + "*" + shp(k.a.C, k.a.R) + "/" + tq : shp(k.a.C, k.a.R) + "*vec" + std::to_string(k.a.C) + "/" + tq; };
+	auto in = [&] { return vm ? "v=" + rl::str(k.w) + " M=" + rl::str(k.a) : "M=" + rl::str(k.a) + " v=" + rl::str(k.v); };
+	if (vm) judge(c, k.cls, mk(key), asM(got), asM(k.want2), &k.ex2, &k.sc2, k.a.R, CMP_VALUE, "vec*mat err/tol", mk(in));
+	else judge(c, k.cls, mk(key), asM(got), asM(k.want1), &k.ex1, &k.sc1, k.a.C, CMP_VALUE, "mat*vec err/tol", mk(in));
+}
+template <int C, int Rw, class T, glm::qualifier Q> static void t_mulvec(pbt::Ctx& c) {
+	MvCase<T> k;
+	mv_prepare<T>(c, tqn<T, Q>(), C, Rw, k);
+	glm::mat<C, Rw, T, Q> A = toG<C, Rw, T, Q>(k.a);
+	if constexpr (HAVE(K_MV, shx(C, Rw), 0)) { glm::vec<Rw, T, Q> g = A * toGv<C, T, Q>(k.v); mv_finish(c, tqn<T, Q>(), k, fromGv(g), false); } else skipped(c);
+	if constexpr (HAVE(K_VM, shx(C, Rw), 0)) { glm::vec<C, T, Q> g = toGv<Rw, T, Q>(k.w) * A; mv_finish(c, tqn<T, Q>(), k, fromGv(g), true); } else skipped(c);
 }
 
 // func: transpose, outerProduct, matrixCompMult
@@ -297,187 +323,219 @@ template <class T, class F> static Mx<T> map1(const Mx<T>& x, F f) {
 	for (int c = 0; c < x.C; ++c) for (int r = 0; r < x.R; ++r) o.e[c][r] = f(x.e[c][r]);
 	return o;
 }
-template <int C, int Rw, class T, glm::qualifier Q> static void t_func(pbt::Ctx& c) {
-	static const std::string tq = "/" + tqn<T, Q>(), opt = "transpose/" + shp(C, Rw) + tq, opo = "outerProduct/vec" + std::to_string(Rw) + ",vec" + std::to_string(C) + tq, opm = "matrixCompMult/" + shp(C, Rw) + tq;
-	const int cls = pick<T>(c);
-	Src<T> s(c, cls, 2 * C * Rw + C + Rw);
-	Mx<T> a(C, Rw), b(C, Rw);
-	Vx<T> col(Rw), row(C);
-	fill(s, a); fill(s, b); fill(s, col); fill(s, row);
-	c.cls(vcname<T>(cls));
-	Distinct<T> d(s.latin); d.add(a); d.add(b); d.add(col); d.add(row);
+template <class T> struct FuncCase { int cls; Mx<T> a, b; Vx<T> col, row; };
+template <class T> NOINLINE static void func_prepare(pbt::Ctx& c, const std::string& tq, int C, int Rw, FuncCase<T>& k) {
+	k.cls = pick<T>(c);
+	Src<T> s(c, k.cls, 2 * C * Rw + C + Rw);
+	k.a = Mx<T>(C, Rw); k.b = Mx<T>(C, Rw); k.col = Vx<T>(Rw); k.row = Vx<T>(C);
+	fill(s, k.a); fill(s, k.b); fill(s, k.col); fill(s, k.row);
+	c.cls(vcname<T>(k.cls));
+	Distinct<T> d(s.latin); d.add(k.a); d.add(k.b); d.add(k.col); d.add(k.row);
 	if (d.good()) c.nontrivial();
-	if (c.verbose) c.logf("transpose/outerProduct/matrixCompMult %s %s (%s) A=%s B=%s c=%s r=%s", shp(C, Rw).c_str(), tqn<T, Q>().c_str(), vcname<T>(cls), rl::str(a).c_str(), rl::str(b).c_str(), rl::str(col).c_str(), rl::str(row).c_str());
-	glm::mat<C, Rw, T, Q> A = toG<C, Rw, T, Q>(a), B = toG<C, Rw, T, Q>(b);
-	{
-		glm::mat<Rw, C, T, Q> t = glm::transpose(A);
-		static_assert(std::is_same<typename glm::mat<C, Rw, T, Q>::transpose_type, glm::mat<Rw, C, T, Q>>::value, "transpose_type");
-		judge(c, cls, opt, fromG(t), rl::transpose(a), nullptr, nullptr, 1, CMP_BITS, "", mk([&] { return "A=" + rl::str(a); }));
-		static_assert(std::is_same<typename glm::mat<C, Rw, T, Q>::col_type, glm::vec<Rw, T, Q>>::value && std::is_same<typename glm::mat<C, Rw, T, Q>::row_type, glm::vec<C, T, Q>>::value, "col_type/row_type");
-	}
-	{
-		auto o = glm::outerProduct(toGv<Rw, T, Q>(col), toGv<C, T, Q>(row));
+	if (c.verbose) c.logf("transpose/outerProduct/matrixCompMult %s %s (%s) A=%s B=%s c=%s r=%s", shp(C, Rw).c_str(), tq.c_str(), vcname<T>(k.cls), rl::str(k.a).c_str(), rl::str(k.b).c_str(), rl::str(k.col).c_str(), rl::str(k.row).c_str());
+}
+template <class T> NOINLINE static void func_finish(pbt::Ctx& c, const std::string& tq, const FuncCase<T>& k, const Mx<T>& got, int which) {
+	auto key = [&] { return (which == 0 ? "transpose/" + shp(k.a.C, k.a.R) : which == 1 ? "outerProduct/vec" + std::to_string(k.a.R) + ",vec" + std::to_string(k.a.C) : "matrixCompMult/" + shp(k.a.C, k.a.R)) + "/" + tq; };
+	auto in = [&] { return which == 0 ? "A=" + rl::str(k.a) : which == 1 ? "c=" + rl::str(k.col) + " r=" + rl::str(k.row) : "A=" + rl::str(k.a) + " B=" + rl::str(k.b); };
+	if (which == 0) judge(c, k.cls, mk(key), got, rl::transpose(k.a), nullptr, nullptr, 1, CMP_BITS, "", mk(in));
+	else if (which == 1) judge(c, k.cls, mk(key), got, rl::outer(k.col, k.row), nullptr, nullptr, 1, CMP_VALUE, "", mk(in));
+	else judge(c, k.cls, mk(key), got, map2(k.a, k.b, [](T x, T y) { return rl::mul1(x, y); }), nullptr, nullptr, 1, CMP_VALUE, "", mk(in));
+}
+template <int C, int Rw, class T, glm::qualifier Q> static void t_func(pbt::Ctx& c) {
+	FuncCase<T> k;
+	func_prepare<T>(c, tqn<T, Q>(), C, Rw, k);
+	static_assert(std::is_same<typename glm::mat<C, Rw, T, Q>::transpose_type, glm::mat<Rw, C, T, Q>>::value, "transpose_type");
+	static_assert(std::is_same<typename glm::mat<C, Rw, T, Q>::col_type, glm::vec<Rw, T, Q>>::value && std::is_same<typename glm::mat<C, Rw, T, Q>::row_type, glm::vec<C, T, Q>>::value, "col_type/row_type");
+	glm::mat<C, Rw, T, Q> A = toG<C, Rw, T, Q>(k.a), B = toG<C, Rw, T, Q>(k.b);
+	if constexpr (HAVE(K_TRANSPOSE, shx(C, Rw), 0)) { glm::mat<Rw, C, T, Q> t = glm::transpose(A); func_finish(c, tqn<T, Q>(), k, fromG(t), 0); } else skipped(c);
+	if constexpr (HAVE(K_OUTER, shx(C, Rw), 0)) {
+		auto o = glm::outerProduct(toGv<Rw, T, Q>(k.col), toGv<C, T, Q>(k.row));
 		static_assert(std::is_same<decltype(o), glm::mat<C, Rw, T, Q>>::value, "outerProduct(vec<R>, vec<C>) must be mat<C,R>");
-		judge(c, cls, opo, fromG(o), rl::outer(col, row), nullptr, nullptr, 1, CMP_VALUE, "", mk([&] { return "c=" + rl::str(col) + " r=" + rl::str(row); }));
-	}
-	{
-		glm::mat<C, Rw, T, Q> m = glm::matrixCompMult(A, B);
-		judge(c, cls, opm, fromG(m), map2(a, b, [](T x, T y) { return rl::mul1(x, y); }), nullptr, nullptr, 1, CMP_VALUE, "", mk([&] { return "A=" + rl::str(a) + " B=" + rl::str(b); }));
-	}
+		func_finish(c, tqn<T, Q>(), k, fromG(o), 1);
+	} else skipped(c);
+	if constexpr (HAVE(K_COMPMULT, shx(C, Rw), 0)) { glm::mat<C, Rw, T, Q> m = glm::matrixCompMult(A, B); func_finish(c, tqn<T, Q>(), k, fromG(m), 2); } else skipped(c);
 }
 
-// elem: element-wise operators
+// =============================================================================================
+// elem: element-wise operators. One table of operations; the reference results of all of them are formed shape-independently.
+enum { E_ADD_S, E_SUB_S, E_MUL_S, E_S_MUL, E_DIV_S, E_S_DIV, E_ADD_M, E_SUB_M, E_NEG, E_POS, E_S_ADD, E_S_SUB,
+       E_CADD_S, E_CSUB_S, E_CMUL_S, E_CDIV_S, E_CADD_M, E_CSUB_M, E_PREINC, E_PREDEC, E_POSTINC, E_POSTDEC,
+       E_UADD_S, E_USUB_S, E_UMUL_S, E_UDIV_S, E_UADD_M, E_USUB_M, E_UASSIGN, E_EQ, E_NOPS };
+static const char* const ELEM_NAME[E_NOPS] = {"m+s", "m-s", "m*s", "s*m", "m/s", "s/m", "m+m", "m-m", "-m", "+m", "s+m", "s-m",
+	"m+=s", "m-=s", "m*=s", "m/=s", "m+=m", "m-=m", "++m", "--m", "m++", "m--",
+	"m+=U(s)", "m-=U(s)", "m*=U(s)", "m/=U(s)", "m+=mat<U>", "m-=mat<U>", "m=mat<U>", "==,!="};
 template <class T> struct OtherU { typedef int type; };               // scalar type U != T for the templated compound operators
 template <> struct OtherU<int> { typedef short type; };
 template <> struct OtherU<double> { typedef float type; };
+template <class T> struct ElemCase {
+	int cls; bool ucls;          // ucls: values exactly representable in U as well (small-int / zeros classes)
+	Mx<T> a, b, an; T k, kd;     // an: a with zero entries replaced (divisor), kd likewise
+	int ec, er; T nv;            // ==/!=: element changed in the unequal copy
+	Mx<T> want[E_NOPS];          // E_POSTINC/E_POSTDEC: the modified operand (the returned value must be `a`)
+};
+template <class T> struct ElemGot {
+	Mx<T> got[E_NOPS], ret[2];   // ret: values returned by m++ / m--
+	uint32_t done = 0, selfbad = 0, missing = 0;
+	bool eq_same = true, ne_same = false, eq_diff = false, ne_diff = true;
+};
+template <class T> NOINLINE static void elem_prepare(pbt::Ctx& c, const std::string& tq, int C, int Rw, ElemCase<T>& k) {
+	k.cls = pick<T>(c);
+	k.ucls = k.cls == VC_SMALL || k.cls == VC_ZEROS;
+	Src<T> s(c, k.cls, 2 * C * Rw + 1);
+	k.a = Mx<T>(C, Rw); k.b = Mx<T>(C, Rw);
+	fill(s, k.a); fill(s, k.b);
+	k.k = s.next();
+	c.cls(vcname<T>(k.cls));
+	Distinct<T> dd(s.latin); dd.add(k.a); dd.add(k.b); dd.add(k.k);
+	if (dd.good()) c.nontrivial();
+	k.an = k.a; make_nz(k.an);
+	k.kd = nz(k.k);
+	k.ec = (int)c.draw(C); k.er = (int)c.draw(Rw);
+	k.nv = s.next();
+	if (eqv(k.nv, k.a.e[k.ec][k.er])) k.nv = eqv(k.a.e[k.ec][k.er], T(1)) ? T(2) : T(1);
+	const T sk = k.k, skd = k.kd;
+	const Mx<T>& a = k.a; const Mx<T>& b = k.b;
+	Mx<T>* w = k.want;
+	w[E_ADD_S] = w[E_S_ADD] = w[E_CADD_S] = w[E_UADD_S] = map1(a, [&](T x) { return rl::add1(x, sk); });
+	w[E_SUB_S] = w[E_CSUB_S] = w[E_USUB_S] = map1(a, [&](T x) { return rl::sub1(x, sk); });
+	w[E_MUL_S] = w[E_S_MUL] = w[E_CMUL_S] = w[E_UMUL_S] = map1(a, [&](T x) { return rl::mul1(x, sk); });
+	w[E_DIV_S] = w[E_CDIV_S] = w[E_UDIV_S] = map1(a, [&](T x) { return rl::div1(x, skd); });
+	w[E_S_DIV] = map1(k.an, [&](T x) { return rl::div1(sk, x); });
+	w[E_S_SUB] = map1(a, [&](T x) { return rl::sub1(sk, x); });
+	w[E_ADD_M] = w[E_CADD_M] = w[E_UADD_M] = map2(a, b, [](T x, T y) { return rl::add1(x, y); });
+	w[E_SUB_M] = w[E_CSUB_M] = w[E_USUB_M] = map2(a, b, [](T x, T y) { return rl::sub1(x, y); });
+	w[E_NEG] = map1(a, [](T x) { return rl::neg1(x); });
+	w[E_POS] = a;
+	w[E_PREINC] = w[E_POSTINC] = map1(a, [](T x) { return rl::add1(x, T(1)); });
+	w[E_PREDEC] = w[E_POSTDEC] = map1(a, [](T x) { return rl::sub1(x, T(1)); });
+	w[E_UASSIGN] = b;
+	if (c.verbose) c.logf("element-wise operators %s %s (%s) A=%s B=%s s=%s", shp(C, Rw).c_str(), tq.c_str(), vcname<T>(k.cls), rl::str(a).c_str(), rl::str(b).c_str(), rl::num(sk).c_str());
+}
+template <class T> NOINLINE static void elem_finish(pbt::Ctx& c, const std::string& tq, const ElemCase<T>& k, const ElemGot<T>& g) {
+	const std::string suffix = std::string();
+	auto in = [&] { return "A=" + rl::str(k.a) + " B=" + rl::str(k.b) + " s=" + rl::num(k.k) + " (divisors: zero entries replaced by 3)"; };
+	if (g.missing) skipped(c);
+	for (int op = 0; op < E_EQ; ++op) {
+		if (!(g.done >> op & 1)) continue;
+		auto key = [&] { return std::string(ELEM_NAME[op]) + "/" + shp(k.a.C, k.a.R) + "/" + tq; };
+		judge(c, k.cls, mk(key), g.got[op], k.want[op], nullptr, nullptr, 1, CMP_VALUE, "", mk(in));
+		if (op == E_POSTINC || op == E_POSTDEC) {
+			auto keyr = [&] { return std::string(ELEM_NAME[op]) + "/returned-value/" + shp(k.a.C, k.a.R) + "/" + tq; };
+			judge(c, k.cls, mk(keyr), g.ret[op - E_POSTINC], k.a, nullptr, nullptr, 1, CMP_VALUE, "", mk(in));
+		}
+		if (g.selfbad >> op & 1) c.failk(key() + "/returns-self", "%s does not return a reference to its left operand", ELEM_NAME[op]);
+	}
+	if (g.done >> E_EQ & 1) {
+		if (!g.eq_same || g.ne_same) c.failk("==,!=/equal/" + shp(k.a.C, k.a.R) + "/" + tq, "A == copy(A) is %d, A != copy(A) is %d; A=%s", (int)g.eq_same, (int)g.ne_same, rl::str(k.a).c_str());
+		if (g.eq_diff || !g.ne_diff)
+			c.failk("==,!=/one-element-differs/" + shp(k.a.C, k.a.R) + "/" + tq, "A == B is %d, A != B is %d where B differs from A only in [%d][%d] (%s instead of %s); A=%s", (int)g.eq_diff, (int)g.ne_diff, k.ec, k.er,
+			        rl::num(k.nv).c_str(), rl::num(k.a.e[k.ec][k.er]).c_str(), rl::str(k.a).c_str());
+	}
+}
 template <int C, int Rw, class T, glm::qualifier Q> static void t_elem(pbt::Ctx& c) {
 	typedef glm::mat<C, Rw, T, Q> M;
 	typedef typename OtherU<T>::type U;
-	static const std::string suffix = "/" + shp(C, Rw) + "/" + tqn<T, Q>();
-	const int cls = pick<T>(c);
-	Src<T> s(c, cls, 2 * C * Rw + 1);
-	Mx<T> a(C, Rw), b(C, Rw);
-	fill(s, a); fill(s, b);
-	T k = s.next();
-	c.cls(vcname<T>(cls));
-	Distinct<T> dd(s.latin); dd.add(a); dd.add(b); dd.add(k);
-	if (dd.good()) c.nontrivial();
-	Mx<T> d = b; make_nz(d);          // non-zero divisors
-	Mx<T> an = a; make_nz(an);
-	const T kd = nz(k);
-	if (c.verbose) c.logf("element-wise operators %s %s (%s) A=%s B=%s s=%s", shp(C, Rw).c_str(), tqn<T, Q>().c_str(), vcname<T>(cls), rl::str(a).c_str(), rl::str(b).c_str(), rl::num(k).c_str());
-	const M A = toG<C, Rw, T, Q>(a), B = toG<C, Rw, T, Q>(b), D = toG<C, Rw, T, Q>(d), AN = toG<C, Rw, T, Q>(an);
-	auto in = [&] { return "A=" + rl::str(a) + " B=" + rl::str(b) + " s=" + rl::num(k) + " (divisors: zero entries replaced by 3)"; };
-	auto chk = [&](const char* op, const M& g, const Mx<T>& want) {
-		Mx<T> got = fromG(g);
-		int i = mdiff(c, got, want, CMP_VALUE);
-		if (i >= 0) mfail(c, op + suffix + "/" + vcname<T>(cls), i, got, want, in());
-	};
-	auto self = [&](const char* op, const M* p, const M* x) { if (p != x) c.failk(op + suffix + "/returns-self", "%s does not return a reference to its left operand", op); };
-	const Mx<T> w_as = map1(a, [&](T x) { return rl::add1(x, k); }), w_ss = map1(a, [&](T x) { return rl::sub1(x, k); }), w_ms = map1(a, [&](T x) { return rl::mul1(x, k); }),
-	            w_ds = map1(a, [&](T x) { return rl::div1(x, kd); }), w_am = map2(a, b, [](T x, T y) { return rl::add1(x, y); }), w_sm = map2(a, b, [](T x, T y) { return rl::sub1(x, y); }),
-	            w_inc = map1(a, [](T x) { return rl::add1(x, T(1)); }), w_dec = map1(a, [](T x) { return rl::sub1(x, T(1)); });
-	chk("m+s", A + k, w_as);
-	chk("m-s", A - k, w_ss);
-	chk("m*s", A * k, w_ms);
-	chk("s*m", k * A, w_ms);
-	chk("m/s", A / kd, w_ds);
-	chk("s/m", k / AN, map1(an, [&](T x) { return rl::div1(k, x); }));
-	chk("m+m", A + B, w_am);
-	chk("m-m", A - B, w_sm);
-	chk("-m", -A, map1(a, [](T x) { return rl::neg1(x); }));
-	chk("+m", +A, a);
-	if constexpr (C == Rw) {
-		chk("s+m", k + A, w_as);
-		chk("s-m", k - A, map1(a, [&](T x) { return rl::sub1(k, x); }));
-	}
-	{ M x = A; M* p = &(x += k); chk("m+=s", x, w_as); self("m+=s", p, &x); }
-	{ M x = A; M* p = &(x -= k); chk("m-=s", x, w_ss); self("m-=s", p, &x); }
-	{ M x = A; M* p = &(x *= k); chk("m*=s", x, w_ms); self("m*=s", p, &x); }
-	{ M x = A; M* p = &(x /= kd); chk("m/=s", x, w_ds); self("m/=s", p, &x); }
-	{ M x = A; M* p = &(x += B); chk("m+=m", x, w_am); self("m+=m", p, &x); }
-	{ M x = A; M* p = &(x -= B); chk("m-=m", x, w_sm); self("m-=m", p, &x); }
-	{ M x = A; M* p = &(++x); chk("++m", x, w_inc); self("++m", p, &x); }
-	{ M x = A; M* p = &(--x); chk("--m", x, w_dec); self("--m", p, &x); }
-	{ M x = A; M old = x++; chk("m++/returned", old, a); chk("m++/operand", x, w_inc); }
-	{ M x = A; M old = x--; chk("m--/returned", old, a); chk("m--/operand", x, w_dec); }
-	// == and !=: a copy, and a copy with exactly one element changed
-	{
-		M E = toG<C, Rw, T, Q>(a);
-		int ec = (int)c.draw(C), er = (int)c.draw(Rw);
-		T nv = s.next();
-		if (eqv(nv, a.e[ec][er])) nv = eqv(a.e[ec][er], T(1)) ? T(2) : T(1);
-		M F = E; F[ec][er] = nv;
-		if (!(A == E) || (A != E)) c.failk("==,!=/equal" + suffix, "A == copy(A) is %d, A != copy(A) is %d; A=%s", (int)(A == E), (int)(A != E), rl::str(a).c_str());
-		if ((A == F) || !(A != F)) c.failk("==,!=/one-element-differs" + suffix, "A == B is %d, A != B is %d where B differs from A only in [%d][%d] (%s instead of %s); A=%s", (int)(A == F), (int)(A != F), ec, er, rl::num(nv).c_str(), rl::num(a.e[ec][er]).c_str(), rl::str(a).c_str());
-	}
-	// compound operators and assignment with another scalar type U (values exactly representable in both types)
-	if (cls == VC_SMALL || cls == VC_ZEROS) {
-		const U ku = (U)k, kdu = (U)kd;
+	ElemCase<T> k;
+	elem_prepare<T>(c, tqn<T, Q>(), C, Rw, k);
+	ElemGot<T> g;
+	const M A = toG<C, Rw, T, Q>(k.a), B = toG<C, Rw, T, Q>(k.b), AN = toG<C, Rw, T, Q>(k.an);
+	const T s = k.k, sd = k.kd;
+	constexpr int SI = shx(C, Rw);
+#define OP(I, EXPR) if constexpr (HAVE(K_ELEM, SI, I)) { g.got[I] = fromG(EXPR); g.done |= 1u << I; } else g.missing |= 1u << I;
+#define COP(I, STMT) if constexpr (HAVE(K_ELEM, SI, I)) { M x = A; M* p = &(STMT); g.got[I] = fromG(x); g.done |= 1u << I; if (p != &x) g.selfbad |= 1u << I; } else g.missing |= 1u << I;
+	OP(E_ADD_S, A + s) OP(E_SUB_S, A - s) OP(E_MUL_S, A * s) OP(E_S_MUL, s * A) OP(E_DIV_S, A / sd) OP(E_S_DIV, s / AN)
+	OP(E_ADD_M, A + B) OP(E_SUB_M, A - B) OP(E_NEG, -A) OP(E_POS, +A)
+	if constexpr (C == Rw) { OP(E_S_ADD, s + A) OP(E_S_SUB, s - A) }
+	COP(E_CADD_S, x += s) COP(E_CSUB_S, x -= s) COP(E_CMUL_S, x *= s) COP(E_CDIV_S, x /= sd) COP(E_CADD_M, x += B) COP(E_CSUB_M, x -= B)
+	COP(E_PREINC, ++x) COP(E_PREDEC, --x)
+	if constexpr (HAVE(K_ELEM, SI, E_POSTINC)) { M x = A; M old = x++; g.got[E_POSTINC] = fromG(x); g.ret[0] = fromG(old); g.done |= 1u << E_POSTINC; } else g.missing |= 1u << E_POSTINC;
+	if constexpr (HAVE(K_ELEM, SI, E_POSTDEC)) { M x = A; M old = x--; g.got[E_POSTDEC] = fromG(x); g.ret[1] = fromG(old); g.done |= 1u << E_POSTDEC; } else g.missing |= 1u << E_POSTDEC;
+	if (k.ucls) {  // compound operators and assignment with another scalar type U (values exactly representable in both types)
+		const U su = (U)s, sdu = (U)sd;
 		glm::mat<C, Rw, U, Q> BU(U(0));
-		for (int i = 0; i < C; ++i) for (int r = 0; r < Rw; ++r) BU[i][r] = (U)b.e[i][r];
-		{ M x = A; x += ku; chk("m+=U(s)", x, w_as); }
-		{ M x = A; x -= ku; chk("m-=U(s)", x, w_ss); }
-		{ M x = A; x *= ku; chk("m*=U(s)", x, w_ms); }
-		{ M x = A; x /= kdu; chk("m/=U(s)", x, w_ds); }
-		{ M x = A; x += BU; chk("m+=mat<U>", x, w_am); }
-		{ M x = A; x -= BU; chk("m-=mat<U>", x, w_sm); }
-		{ M x = A; M* p = &(x = BU); chk("m=mat<U>", x, b); self("m=mat<U>", p, &x); }
+		for (int i = 0; i < C; ++i) for (int r = 0; r < Rw; ++r) BU[i][r] = (U)k.b.e[i][r];
+		COP(E_UADD_S, x += su) COP(E_USUB_S, x -= su) COP(E_UMUL_S, x *= su) COP(E_UDIV_S, x /= sdu) COP(E_UADD_M, x += BU) COP(E_USUB_M, x -= BU) COP(E_UASSIGN, x = BU)
 	}
+	if constexpr (HAVE(K_ELEM, SI, E_EQ)) {
+		M E = toG<C, Rw, T, Q>(k.a), F = E;
+		F[k.ec][k.er] = k.nv;
+		g.eq_same = A == E; g.ne_same = A != E; g.eq_diff = A == F; g.ne_diff = A != F;
+		g.done |= 1u << E_EQ;
+	} else g.missing |= 1u << E_EQ;
+#undef OP
+#undef COP
+	elem_finish(c, tqn<T, Q>(), k, g);
 }
 
-// access: operator[], byte image, row()/column()
+// =============================================================================================
+// access: operator[] against the column-major byte image, gtc row()/column()
+enum { A_READ, A_CREAD, A_WRITE, A_ASSIGNCOL, A_ROWGET, A_COLGET, A_ROWSET, A_ROWSET_ARG, A_COLSET, A_NOPS };
+static const char* const ACCESS_NAME[A_NOPS] = {"operator[]/read-byte-image", "operator[]const/read-byte-image", "operator[]/write-byte-image", "operator[]/assign-column", "row/get", "column/get", "row/set", "row/set-leaves-argument", "column/set"};
+template <class T> struct AccCase { int cls, ri, ci; Mx<T> a; Vx<T> nr, nc; Mx<T> want[A_NOPS]; };
+template <class T> NOINLINE static void access_prepare(pbt::Ctx& c, const std::string& tq, int C, int Rw, AccCase<T>& k) {
+	k.cls = pick<T>(c);
+	Src<T> s(c, k.cls, C * Rw + C + Rw);
+	k.a = Mx<T>(C, Rw); k.nr = Vx<T>(C); k.nc = Vx<T>(Rw);
+	fill(s, k.a); fill(s, k.nr); fill(s, k.nc);
+	k.ri = (int)c.draw(Rw); k.ci = (int)c.draw(C);
+	c.cls(vcname<T>(k.cls));
+	Distinct<T> d(s.latin); d.add(k.a); d.add(k.nr); d.add(k.nc);
+	if (d.good()) c.nontrivial();
+	k.want[A_READ] = k.want[A_CREAD] = k.want[A_WRITE] = k.want[A_ROWSET_ARG] = k.a;
+	Mx<T> wc = k.a; for (int r = 0; r < Rw; ++r) wc.e[k.ci][r] = k.nc.e[r];
+	k.want[A_ASSIGNCOL] = k.want[A_COLSET] = wc;
+	Mx<T> wr = k.a; for (int i = 0; i < C; ++i) wr.e[i][k.ri] = k.nr.e[i];
+	k.want[A_ROWSET] = wr;
+	Vx<T> rg(C), cg(Rw);
+	for (int i = 0; i < C; ++i) rg.e[i] = k.a.e[i][k.ri];
+	for (int r = 0; r < Rw; ++r) cg.e[r] = k.a.e[k.ci][r];
+	k.want[A_ROWGET] = asM(rg); k.want[A_COLGET] = asM(cg);
+	if (c.verbose) c.logf("access %s %s (%s) A=%s row %d <- %s, column %d <- %s", shp(C, Rw).c_str(), tq.c_str(), vcname<T>(k.cls), rl::str(k.a).c_str(), k.ri, rl::str(k.nr).c_str(), k.ci, rl::str(k.nc).c_str());
+}
+template <class T> NOINLINE static void access_finish(pbt::Ctx& c, const std::string& tq, const AccCase<T>& k, const Mx<T>* got, uint32_t done, int lenC, int lenR) {
+	auto in = [&] { return "A=" + rl::str(k.a) + " row index " + std::to_string(k.ri) + " column index " + std::to_string(k.ci) + " new row " + rl::str(k.nr) + " new column " + rl::str(k.nc); };
+	for (int op = 0; op < A_NOPS; ++op) {
+		if (!(done >> op & 1)) continue;
+		auto key = [&] { return std::string(ACCESS_NAME[op]) + "/" + shp(k.a.C, k.a.R) + "/" + tq; };
+		judge(c, k.cls, mk(key), got[op], k.want[op], nullptr, nullptr, 1, CMP_BITS, "", mk(in));
+	}
+	if (lenC != k.a.C || lenR != k.a.R) c.failk("length/" + shp(k.a.C, k.a.R) + "/" + tq, "length()=%d, column length()=%d", lenC, lenR);
+}
 template <int C, int Rw, class T, glm::qualifier Q> static void t_access(pbt::Ctx& c) {
 	typedef glm::mat<C, Rw, T, Q> M;
-	static const std::string suffix = "/" + shp(C, Rw) + "/" + tqn<T, Q>();
-	int cls = pick<T>(c);
-	Src<T> s(c, cls, C * Rw + C + Rw);
-	Mx<T> a(C, Rw);
-	Vx<T> nr(C), nc(Rw);
-	fill(s, a); fill(s, nr); fill(s, nc);
-	const int ri = (int)c.draw(Rw), ci = (int)c.draw(C);
-	c.cls(vcname<T>(cls));
-	Distinct<T> d(s.latin); d.add(a); d.add(nr); d.add(nc);
-	if (d.good()) c.nontrivial();
-	if (c.verbose) c.logf("access %s %s (%s) A=%s row %d <- %s, column %d <- %s", shp(C, Rw).c_str(), tqn<T, Q>().c_str(), vcname<T>(cls), rl::str(a).c_str(), ri, rl::str(nr).c_str(), ci, rl::str(nc).c_str());
-	auto in = [&] { return "A=" + rl::str(a) + " row index " + std::to_string(ri) + " column index " + std::to_string(ci) + " new row " + rl::str(nr) + " new column " + rl::str(nc); };
-	auto chk = [&](const char* op, const Mx<T>& got, const Mx<T>& want) {
-		int i = mdiff(c, got, want, CMP_BITS);
-		if (i >= 0) mfail(c, op + suffix + "/" + vcname<T>(cls), i, got, want, in());
-	};
-	// the matrix is built from its column-major byte image (manual: "Matrix types store their values in column-major order"), then read with operator[]
-	M A(T(0));
-	if constexpr (sizeof(M) == sizeof(T) * C * Rw) {
-		T raw[16];
-		for (int i = 0; i < C; ++i) for (int r = 0; r < Rw; ++r) raw[i * Rw + r] = a.e[i][r];
-		memcpy(static_cast<void*>(&A), raw, sizeof(T) * C * Rw);
-		chk("operator[]/read-byte-image", fromG(A), a);
-		const M& CA = A;
-		Mx<T> viaconst(C, Rw);
-		for (int i = 0; i < C; ++i) for (int r = 0; r < Rw; ++r) viaconst.e[i][r] = CA[i][r];
-		chk("operator[]const/read-byte-image", viaconst, a);
-		M W = toG<C, Rw, T, Q>(a);
-		T back[16];
-		memcpy(back, static_cast<const void*>(&W), sizeof(T) * C * Rw);
-		Mx<T> img(C, Rw);
-		for (int i = 0; i < C; ++i) for (int r = 0; r < Rw; ++r) img.e[i][r] = back[i * Rw + r];
-		chk("operator[]/write-byte-image", img, a);
-	} else A = toG<C, Rw, T, Q>(a);
-	if ((int)A.length() != C || (int)A[0].length() != Rw || (int)M::length() != C) c.failk("length" + suffix, "length()=%d, column length()=%d", (int)A.length(), (int)A[0].length());
-	{  // whole-column assignment through operator[]
-		M X = A;
-		X[ci] = toGv<Rw, T, Q>(nc);
-		Mx<T> want = a;
-		for (int r = 0; r < Rw; ++r) want.e[ci][r] = nc.e[r];
-		chk("operator[]/assign-column", fromG(X), want);
-	}
-	{
-		glm::vec<C, T, Q> g = glm::row(A, ri);
-		Vx<T> want(C);
-		for (int i = 0; i < C; ++i) want.e[i] = a.e[i][ri];
-		chk("row/get", asM(fromGv(g)), asM(want));
-	}
-	{
-		glm::vec<Rw, T, Q> g = glm::column(A, ci);
-		Vx<T> want(Rw);
-		for (int r = 0; r < Rw; ++r) want.e[r] = a.e[ci][r];
-		chk("column/get", asM(fromGv(g)), asM(want));
-	}
-	{
-		M g = glm::row(A, ri, toGv<C, T, Q>(nr));
-		Mx<T> want = a;
-		for (int i = 0; i < C; ++i) want.e[i][ri] = nr.e[i];
-		chk("row/set", fromG(g), want);
-		chk("row/set-leaves-argument", fromG(A), a);
-	}
-	{
-		M g = glm::column(A, ci, toGv<Rw, T, Q>(nc));
-		Mx<T> want = a;
-		for (int r = 0; r < Rw; ++r) want.e[ci][r] = nc.e[r];
-		chk("column/set", fromG(g), want);
-	}
+	AccCase<T> k;
+	access_prepare<T>(c, tqn<T, Q>(), C, Rw, k);
+	Mx<T> got[A_NOPS];
+	uint32_t done = 0;
+	if constexpr (HAVE(K_ACCESS, shx(C, Rw), 0)) {
+		// the matrix is built from its column-major byte image (manual: "Matrix types store their values in column-major order"), then read with operator[]
+		M A(T(0));
+		if constexpr (sizeof(M) == sizeof(T) * C * Rw) {
+			T raw[16];
+			for (int i = 0; i < C; ++i) for (int r = 0; r < Rw; ++r) raw[i * Rw + r] = k.a.e[i][r];
+			memcpy(static_cast<void*>(&A), raw, sizeof(T) * C * Rw);
+			got[A_READ] = fromG(A);
+			const M& CA = A;
+			got[A_CREAD] = Mx<T>(C, Rw);
+			for (int i = 0; i < C; ++i) for (int r = 0; r < Rw; ++r) got[A_CREAD].e[i][r] = CA[i][r];
+			M W = toG<C, Rw, T, Q>(k.a);
+			T back[16];
+			memcpy(back, static_cast<const void*>(&W), sizeof(T) * C * Rw);
+			got[A_WRITE] = Mx<T>(C, Rw);
+			for (int i = 0; i < C; ++i) for (int r = 0; r < Rw; ++r) got[A_WRITE].e[i][r] = back[i * Rw + r];
+			done |= 1u << A_READ | 1u << A_CREAD | 1u << A_WRITE;
+		} else A = toG<C, Rw, T, Q>(k.a);
+		{ M X = A; X[k.ci] = toGv<Rw, T, Q>(k.nc); got[A_ASSIGNCOL] = fromG(X); }
+		{ glm::vec<C, T, Q> g = glm::row(A, k.ri); got[A_ROWGET] = asM(fromGv(g)); }
+		{ glm::vec<Rw, T, Q> g = glm::column(A, k.ci); got[A_COLGET] = asM(fromGv(g)); }
+		{ M g = glm::row(A, k.ri, toGv<C, T, Q>(k.nr)); got[A_ROWSET] = fromG(g); got[A_ROWSET_ARG] = fromG(A); }
+		{ M g = glm::column(A, k.ci, toGv<Rw, T, Q>(k.nc)); got[A_COLSET] = fromG(g); }
+		done |= 1u << A_ASSIGNCOL | 1u << A_ROWGET | 1u << A_COLGET | 1u << A_ROWSET | 1u << A_ROWSET_ARG | 1u << A_COLSET;
+		access_finish(c, tqn<T, Q>(), k, got, done, (int)A.length() == (int)M::length() ? (int)A.length() : -1, (int)A[0].length());
+	} else skipped(c);
 }
 
+// =============================================================================================
 // convert: mat<C,Rw>(mat<C2,R2>) — overlapping block copied, rest identity. Same shape: the other constructors.
 template <class T> struct OtherT { typedef int type; };  // source element type of the cross-type conversion (values are small integers exact in both)
 template <> struct OtherT<float> { typedef double type; };
@@ -486,64 +544,108 @@ template <> struct OtherT<unsigned int> { typedef short type; };
 template <glm::qualifier Q> struct OtherQ { static const glm::qualifier value = glm::highp; };
 template <> struct OtherQ<glm::highp> { static const glm::qualifier value = glm::lowp; };
 template <size_t I> struct ArgT { typedef typename std::conditional<I % 3 == 0, int, typename std::conditional<I % 3 == 1, float, double>::type>::type type; };
+template <size_t I> struct ColT { typedef typename std::conditional<I % 2 == 0, double, int>::type type; };
 template <class M, class T, size_t... I> static M make_list(const T* p, std::index_sequence<I...>) { return M(p[I]...); }
 template <class M, class T, size_t... I> static M make_mixed(const T* p, std::index_sequence<I...>) { return M(static_cast<typename ArgT<I>::type>(p[I])...); }
 template <class T> static Vx<T> colv(const Mx<T>& a, int i) { Vx<T> v(a.R); for (int r = 0; r < a.R; ++r) v.e[r] = a.e[i][r]; return v; }
 template <class M, int Rw, class T, glm::qualifier Q, size_t... I> static M make_columns(const Mx<T>& a, std::index_sequence<I...>) { return M(toGv<Rw, T, Q>(colv(a, (int)I))...); }
-template <size_t I> struct ColT { typedef typename std::conditional<I % 2 == 0, double, int>::type type; };
 template <int Rw, class V, class T, glm::qualifier Q> static glm::vec<Rw, V, Q> colas(const Mx<T>& a, int i) { glm::vec<Rw, V, Q> v(V(0)); for (int r = 0; r < Rw; ++r) v[r] = (V)a.e[i][r]; return v; }
 template <class M, int Rw, class T, glm::qualifier Q, size_t... I> static M make_mixed_columns(const Mx<T>& a, std::index_sequence<I...>) { return M(colas<Rw, typename ColT<I>::type, T, Q>(a, (int)I)...); }
 
+enum { CT_SCALAR, CT_LIST, CT_COLUMNS, CT_COPY, CT_ASSIGN, CT_OTHERQ, CT_OTHERT, CT_OTHERTQ, CT_MIXEDLIST, CT_MIXEDCOLS, CT_NOPS };
+static const char* const CTOR_NAME[CT_NOPS] = {"scalar", "element-list", "columns", "copy", "assign", "other-qualifier", "other-type", "other-type,other-qualifier", "mixed-type-element-list", "mixed-type-columns"};
+template <class T> struct ConvCase { int cls; bool ucls; Mx<T> a; };
+template <class T> NOINLINE static void conv_prepare(pbt::Ctx& c, const std::string& tq, int C, int Rw, int C2, int R2, ConvCase<T>& k) {
+	k.cls = pick<T>(c);
+	k.ucls = k.cls == VC_SMALL || k.cls == VC_ZEROS;
+	Src<T> s(c, k.cls, C2 * R2 + 1);
+	k.a = Mx<T>(C2, R2);
+	fill(s, k.a);
+	c.cls(vcname<T>(k.cls));
+	Distinct<T> d(s.latin); d.add(k.a);
+	bool nt = d.good();
+	// a wrong block would copy a source entry where 0/1 belongs (or the reverse): source entries must differ from the padding values
+	for (int i = 0; i < C2; ++i) for (int r = 0; r < R2; ++r) if (k.a.e[i][r] == T(1)) nt = false;
+	if (nt) c.nontrivial();
+	if (c.verbose) {
+		if (C != C2 || Rw != R2) c.logf("%s(%s) %s (%s) source=%s", shp(C, Rw).c_str(), shp(C2, R2).c_str(), tq.c_str(), vcname<T>(k.cls), rl::str(k.a).c_str());
+		else c.logf("constructors of %s %s (%s) values=%s", shp(C, Rw).c_str(), tq.c_str(), vcname<T>(k.cls), rl::str(k.a).c_str());
+	}
+}
+template <class T> NOINLINE static void conv_finish(pbt::Ctx& c, const std::string& tq, const ConvCase<T>& k, int C, int Rw, const Mx<T>& got) {
+	// keyed by what is wrong: an element of the overlapping block (must be the source element, bit for bit) or of the padding (identity)
+	const Mx<T> want = rl::convert(k.a, C, Rw);
+	bool badblock = false, badpad = false;
+	for (int i = 0; i < C; ++i) for (int r = 0; r < Rw; ++r) {
+		if (eqb(got.e[i][r], want.e[i][r])) continue;
+		bool inblock = i < k.a.C && r < k.a.R;
+		if (inblock ? badblock : badpad) continue;
+		(inblock ? badblock : badpad) = true;
+		c.failk(shp(C, Rw) + "(" + shp(k.a.C, k.a.R) + ")/" + tq + (inblock ? "/overlapping-block" : "/identity-padding"), "result[%d][%d] = %s, expected %s (%s); source=%s; got %s, expected %s", i, r, rl::num(got.e[i][r]).c_str(),
+		        rl::num(want.e[i][r]).c_str(), inblock ? "the source element" : "identity padding", rl::str(k.a).c_str(), rl::str(got).c_str(), rl::str(want).c_str());
+	}
+}
+template <class T> NOINLINE static void ctor_finish(pbt::Ctx& c, const std::string& tq, const ConvCase<T>& k, const Mx<T>* got, uint32_t done, bool missing) {
+	typedef typename OtherT<T>::type U;
+	const Mx<T>& a = k.a;
+	const int C = a.C, Rw = a.R;
+	if (missing) skipped(c);
+	Mx<T> want[CT_NOPS];
+	T dg[4] = {a.e[0][0], a.e[0][0], a.e[0][0], a.e[0][0]};
+	want[CT_SCALAR] = rl::diagonal(C, Rw, dg);
+	want[CT_LIST] = want[CT_COLUMNS] = want[CT_COPY] = want[CT_ASSIGN] = want[CT_OTHERQ] = a;
+	want[CT_OTHERT] = want[CT_OTHERTQ] = map1(a, [](T x) { return (T)(U)x; });
+	want[CT_MIXEDLIST] = Mx<T>(C, Rw); want[CT_MIXEDCOLS] = Mx<T>(C, Rw);
+	for (int i = 0; i < C; ++i) for (int r = 0; r < Rw; ++r) {
+		int n = i * Rw + r; T x = a.e[i][r];
+		want[CT_MIXEDLIST].e[i][r] = n % 3 == 0 ? (T)(int)x : n % 3 == 1 ? (T)(float)x : (T)(double)x;
+		want[CT_MIXEDCOLS].e[i][r] = i % 2 == 0 ? (T)(double)x : (T)(int)x;
+	}
+	auto in = [&] { return "values=" + rl::str(a); };
+	for (int op = 0; op < CT_NOPS; ++op) {
+		if (!(done >> op & 1)) continue;
+		auto key = [&] { return shp(C, Rw) + "(" + CTOR_NAME[op] + ")/" + tq; };
+		judge(c, k.cls, mk(key), got[op], want[op], nullptr, nullptr, 1, CMP_BITS, "", mk(in));
+	}
+}
 template <int C, int Rw, int C2, int R2, class T, glm::qualifier Q> static void t_conv(pbt::Ctx& c) {
 	typedef glm::mat<C, Rw, T, Q> M;
-	static const std::string tq = "/" + tqn<T, Q>();
-	int cls = pick<T>(c);
-	Src<T> s(c, cls, C2 * R2 + 1);
-	Mx<T> a(C2, R2);
-	fill(s, a);
-	c.cls(vcname<T>(cls));
-	Distinct<T> d(s.latin); d.add(a);
-	bool nt = d.good();
-	// the padding must be distinguishable from the source entries: no source entry equal to 0 or 1 on a padded position is needed
-	// (padded positions hold no source entry), but a wrong block would copy an entry where 0/1 belongs, so entries must not be 0 or 1
-	for (int i = 0; i < C2; ++i) for (int r = 0; r < R2; ++r) if (a.e[i][r] == T(1)) nt = false;
-	if (nt) c.nontrivial();
-	auto in = [&] { return "source=" + rl::str(a); };
+	ConvCase<T> k;
+	conv_prepare<T>(c, tqn<T, Q>(), C, Rw, C2, R2, k);
 	if constexpr (C != C2 || Rw != R2) {
-		static const std::string op = shp(C, Rw) + "(" + shp(C2, R2) + ")" + tq;
-		if (c.verbose) c.logf("%s (%s) source=%s", op.c_str(), vcname<T>(cls), rl::str(a).c_str());
-		M g(toG<C2, R2, T, Q>(a));
-		judge(c, cls, op, fromG(g), rl::convert(a, C, Rw), nullptr, nullptr, 1, CMP_BITS, "", mk(in));
+		if constexpr (HAVE(K_CONV, shx(C, Rw), shx(C2, R2))) { M g(toG<C2, R2, T, Q>(k.a)); conv_finish(c, tqn<T, Q>(), k, C, Rw, fromG(g)); } else skipped(c);
 	} else {
-		static const std::string sh = shp(C, Rw);
-		if (c.verbose) c.logf("constructors of %s %s (%s) values=%s", sh.c_str(), tqn<T, Q>().c_str(), vcname<T>(cls), rl::str(a).c_str());
-		auto chk = [&](const char* what, const M& g, const Mx<T>& want) { judge(c, cls, sh + "(" + what + ")" + tq, fromG(g), want, nullptr, nullptr, 1, CMP_BITS, "", mk(in)); };
+		typedef typename OtherT<T>::type U;
+		constexpr glm::qualifier P = OtherQ<Q>::value;
+		constexpr int SI = shx(C, Rw);
+		const Mx<T>& a = k.a;
+		Mx<T> got[CT_NOPS];
+		uint32_t done = 0; bool missing = false;
 		T raw[16];
 		for (int i = 0; i < C; ++i) for (int r = 0; r < Rw; ++r) raw[i * Rw + r] = a.e[i][r];
-		{ T dg[4] = {a.e[0][0], a.e[0][0], a.e[0][0], a.e[0][0]}; chk("scalar", M(a.e[0][0]), rl::diagonal(C, Rw, dg)); }
-		chk("element-list", make_list<M>(raw, std::make_index_sequence<C * Rw>()), a);
-		chk("columns", make_columns<M, Rw, T, Q>(a, std::make_index_sequence<C>()), a);
-		{ M src = toG<C, Rw, T, Q>(a); M cp(src); chk("copy", cp, a); M as(T(0)); as = src; chk("assign", as, a); }
-		{ glm::mat<C, Rw, T, OtherQ<Q>::value> src = toG<C, Rw, T, OtherQ<Q>::value>(a); M g(src); chk("other-qualifier", g, a); }
-		if (cls == VC_SMALL || cls == VC_ZEROS) {  // static_cast semantics on values that are exact in every type involved
-			typedef typename OtherT<T>::type U;
-			Mx<T> viaU = map1(a, [](T x) { return (T)(U)x; });
+#define CT(I, EXPR) if constexpr (HAVE(K_CTOR, SI, I)) { got[I] = fromG(EXPR); done |= 1u << I; } else missing = true;
+		CT(CT_SCALAR, M(a.e[0][0]))
+		CT(CT_LIST, (make_list<M>(raw, std::make_index_sequence<C * Rw>())))
+		CT(CT_COLUMNS, (make_columns<M, Rw, T, Q>(a, std::make_index_sequence<C>())))
+		if constexpr (HAVE(K_CTOR, SI, CT_COPY)) { M src = toG<C, Rw, T, Q>(a); M cp(src); got[CT_COPY] = fromG(cp); done |= 1u << CT_COPY; } else missing = true;
+		if constexpr (HAVE(K_CTOR, SI, CT_ASSIGN)) { M src = toG<C, Rw, T, Q>(a); M as(T(0)); as = src; got[CT_ASSIGN] = fromG(as); done |= 1u << CT_ASSIGN; } else missing = true;
+		if constexpr (HAVE(K_CTOR, SI, CT_OTHERQ)) { glm::mat<C, Rw, T, P> src = toG<C, Rw, T, P>(a); M g(src); got[CT_OTHERQ] = fromG(g); done |= 1u << CT_OTHERQ; } else missing = true;
+		if (k.ucls) {  // static_cast semantics on values that are exact in every type involved
 			glm::mat<C, Rw, U, Q> su(U(0));
-			glm::mat<C, Rw, U, OtherQ<Q>::value> suq(U(0));
+			glm::mat<C, Rw, U, P> suq(U(0));
 			for (int i = 0; i < C; ++i) for (int r = 0; r < Rw; ++r) { su[i][r] = (U)a.e[i][r]; suq[i][r] = (U)a.e[i][r]; }
-			chk("other-type", M(su), viaU);
-			chk("other-type,other-qualifier", M(suq), viaU);
-			Mx<T> wantmixed(C, Rw);
-			for (int k = 0; k < C * Rw; ++k) wantmixed.e[k / Rw][k % Rw] = k % 3 == 0 ? (T)(int)raw[k] : k % 3 == 1 ? (T)(float)raw[k] : (T)(double)raw[k];
-			chk("mixed-type-element-list", make_mixed<M>(raw, std::make_index_sequence<C * Rw>()), wantmixed);
-			Mx<T> wantcols(C, Rw);
-			for (int i = 0; i < C; ++i) for (int r = 0; r < Rw; ++r) wantcols.e[i][r] = i % 2 == 0 ? (T)(double)a.e[i][r] : (T)(int)a.e[i][r];
-			chk("mixed-type-columns", make_mixed_columns<M, Rw, T, Q>(a, std::make_index_sequence<C>()), wantcols);
+			CT(CT_OTHERT, M(su))
+			CT(CT_OTHERTQ, M(suq))
+			CT(CT_MIXEDLIST, (make_mixed<M>(raw, std::make_index_sequence<C * Rw>())))
+			CT(CT_MIXEDCOLS, (make_mixed_columns<M, Rw, T, Q>(a, std::make_index_sequence<C>())))
 		}
+#undef CT
+		ctor_finish(c, tqn<T, Q>(), k, got, done, missing);
 	}
 }
 
-// gtx: major storage, cross product matrix, diagonal, adjugate, determinant
+// =============================================================================================
+// gtx: major storage, determinant, adjugate (square N), cross product matrix, diagonal
 template <int N> struct Major;
 #define MAJOR(N, ...) \
 	template <> struct Major<N> { \
@@ -559,109 +661,165 @@ template <int C, int Rw> struct Diag;
 #define DIAG(C, Rw) template <> struct Diag<C, Rw> { template <class T, glm::qualifier Q> static glm::mat<C, Rw, T, Q> call(const glm::vec<(C < Rw ? C : Rw), T, Q>& v) { return glm::diagonal##C##x##Rw(v); } };
 DIAG(2, 2) DIAG(2, 3) DIAG(2, 4) DIAG(3, 2) DIAG(3, 3) DIAG(3, 4) DIAG(4, 2) DIAG(4, 3) DIAG(4, 4)
 
-template <int N, class T, glm::qualifier Q> static void t_square(pbt::Ctx& c) {
-	static const std::string tq = "/" + tqn<T, Q>(), n = std::to_string(N);
-	int cls = pick<T>(c);
-	const int sub = (int)c.draw(6);
+enum { SQ_ROWV, SQ_ROWM, SQ_COLV, SQ_COLM, SQ_DET, SQ_ADJ, SQ_NOPS };
+static const char* const SQ_NAME[SQ_NOPS] = {"rowMajor(vectors)", "rowMajor(matrix)", "colMajor(vectors)", "colMajor(matrix)", "determinant", "adjugate"};
+template <class T> struct SqCase { int cls, sub; Mx<T> a; };
+template <class T> NOINLINE static void square_prepare(pbt::Ctx& c, const std::string& tq, int N, SqCase<T>& k) {
+	k.cls = pick<T>(c);
+	k.sub = (int)c.draw(SQ_NOPS);
 	// determinant / adjugate: products of up to N entries; only exact classes, entries small enough that nothing overflows or rounds
-	if (sub >= 4 && (cls == VC_GENERAL || (cls == VC_ALT && VT<T>::alt != ALT_WRAP))) cls = VC_SMALL;
-	Src<T> s(c, cls, N * N, sub >= 4 ? 16 : 0, sub >= 4 ? 10 : 14);
-	Mx<T> a(N, N);
-	fill(s, a);
-	c.cls(vcname<T>(cls));
-	Distinct<T> d(s.latin); d.add(a);
+	const bool prod = k.sub >= SQ_DET;
+	if (prod && (k.cls == VC_GENERAL || (k.cls == VC_ALT && VT<T>::alt != ALT_WRAP))) k.cls = VC_SMALL;
+	Src<T> s(c, k.cls, N * N, prod ? 16 : 0, prod ? 10 : 14);
+	k.a = Mx<T>(N, N);
+	fill(s, k.a);
+	c.cls(vcname<T>(k.cls)); c.cls(SQ_NAME[k.sub]);
+	Distinct<T> d(s.latin); d.add(k.a);
 	if (d.good()) c.nontrivial();
-	auto in = [&] { return "A=" + rl::str(a); };
-	glm::mat<N, N, T, Q> A = toG<N, N, T, Q>(a);
-	glm::vec<N, T, Q> v[4];
-	for (int i = 0; i < N; ++i) v[i] = toGv<N, T, Q>(colv(a, i));
-	if (c.verbose) c.logf("gtx square N=%d sub-op %d %s (%s) A=%s", N, sub, tqn<T, Q>().c_str(), vcname<T>(cls), rl::str(a).c_str());
-	switch (sub) {
-	case 0: c.cls("rowMajor(vectors)"); judge(c, cls, "rowMajor" + n + "(vectors)" + tq, fromG(Major<N>::template rowv<T, Q>(v)), rl::transpose(a), nullptr, nullptr, 1, CMP_BITS, "", mk(in)); break;  // v[i] = column i of A = row i of the result
-	case 1: c.cls("rowMajor(matrix)"); judge(c, cls, "rowMajor" + n + "(matrix)" + tq, fromG(Major<N>::template rowm<T, Q>(A)), rl::transpose(a), nullptr, nullptr, 1, CMP_BITS, "", mk(in)); break;
-	case 2: c.cls("colMajor(vectors)"); judge(c, cls, "colMajor" + n + "(vectors)" + tq, fromG(Major<N>::template colv<T, Q>(v)), a, nullptr, nullptr, 1, CMP_BITS, "", mk(in)); break;
-	case 3: c.cls("colMajor(matrix)"); judge(c, cls, "colMajor" + n + "(matrix)" + tq, fromG(Major<N>::template colm<T, Q>(A)), a, nullptr, nullptr, 1, CMP_BITS, "", mk(in)); break;
-	case 4: {
-		c.cls("determinant");
-		T g = glm::determinant(A), w = rl::determinant(a);
-		if (!eqv(g, w)) c.failk("determinant/mat" + n + "x" + n + tq + "/" + vcname<T>(cls), "determinant = %s, Leibniz expansion %s; %s", rl::num(g).c_str(), rl::num(w).c_str(), in().c_str());
-		break;
-	}
-	default: c.cls("adjugate"); judge(c, cls, "adjugate/mat" + n + "x" + n + tq, fromG(glm::adjugate(A)), rl::adjugate(a), nullptr, nullptr, 1, CMP_VALUE, "", mk(in)); break;
-	}
+	if (c.verbose) c.logf("%s N=%d %s (%s) A=%s", SQ_NAME[k.sub], N, tq.c_str(), vcname<T>(k.cls), rl::str(k.a).c_str());
 }
-template <int C, int Rw, class T, glm::qualifier Q> static void t_diag(pbt::Ctx& c) {
-	static const std::string op = "diagonal" + std::to_string(C) + "x" + std::to_string(Rw) + "/" + tqn<T, Q>();
+template <class T> NOINLINE static void square_finish(pbt::Ctx& c, const std::string& tq, const SqCase<T>& k, const Mx<T>& got) {
+	const int N = k.a.C;
+	auto key = [&] {
+		std::string n = std::to_string(N);
+		switch (k.sub) {
+		case SQ_ROWV: return "rowMajor" + n + "(vectors)/" + tq;
+		case SQ_ROWM: return "rowMajor" + n + "(matrix)/" + tq;
+		case SQ_COLV: return "colMajor" + n + "(vectors)/" + tq;
+		case SQ_COLM: return "colMajor" + n + "(matrix)/" + tq;
+		case SQ_DET: return "determinant/" + shp(N, N) + "/" + tq;
+		default: return "adjugate/" + shp(N, N) + "/" + tq;
+		}
+	};
+	auto in = [&] { return "A=" + rl::str(k.a); };
+	Mx<T> want;
+	switch (k.sub) {
+	case SQ_ROWV: case SQ_ROWM: want = rl::transpose(k.a); break;  // the vectors passed are the columns of A and become the rows of the result
+	case SQ_COLV: case SQ_COLM: want = k.a; break;
+	case SQ_DET: want = Mx<T>(1, 1); want.e[0][0] = rl::determinant(k.a); break;
+	default: want = rl::adjugate(k.a); break;
+	}
+	judge(c, k.cls, mk(key), got, want, nullptr, nullptr, 1, k.sub < SQ_DET ? CMP_BITS : CMP_VALUE, "", mk(in));
+}
+template <int N, class T, glm::qualifier Q> static void t_square(pbt::Ctx& c) {
+	SqCase<T> k;
+	square_prepare<T>(c, tqn<T, Q>(), N, k);
+	glm::mat<N, N, T, Q> A = toG<N, N, T, Q>(k.a);
+	glm::vec<N, T, Q> v[4];
+	for (int i = 0; i < N; ++i) v[i] = toGv<N, T, Q>(colv(k.a, i));
+	Mx<T> got;
+	bool have = true;
+	switch (k.sub) {
+	case SQ_ROWV: if constexpr (HAVE(K_SQUARE, N, SQ_ROWV)) got = fromG(Major<N>::template rowv<T, Q>(v)); else have = false; break;
+	case SQ_ROWM: if constexpr (HAVE(K_SQUARE, N, SQ_ROWM)) got = fromG(Major<N>::template rowm<T, Q>(A)); else have = false; break;
+	case SQ_COLV: if constexpr (HAVE(K_SQUARE, N, SQ_COLV)) got = fromG(Major<N>::template colv<T, Q>(v)); else have = false; break;
+	case SQ_COLM: if constexpr (HAVE(K_SQUARE, N, SQ_COLM)) got = fromG(Major<N>::template colm<T, Q>(A)); else have = false; break;
+	case SQ_DET: if constexpr (HAVE(K_SQUARE, N, SQ_DET)) { got = Mx<T>(1, 1); got.e[0][0] = glm::determinant(A); } else have = false; break;
+	default: if constexpr (HAVE(K_SQUARE, N, SQ_ADJ)) got = fromG(glm::adjugate(A)); else have = false; break;
+	}
+	if (have) square_finish(c, tqn<T, Q>(), k, got); else skipped(c);
+}
+template <class T> NOINLINE static int diag_prepare(pbt::Ctx& c, const std::string& tq, int C, int Rw, Vx<T>& v) {
 	const int L = C < Rw ? C : Rw;
 	int cls = pick<T>(c);
 	Src<T> s(c, cls, L);
-	Vx<T> v(L);
+	v = Vx<T>(L);
 	fill(s, v);
 	c.cls(vcname<T>(cls)); c.cls("diagonal");
 	Distinct<T> d(false); d.add(v);
 	if (d.good()) c.nontrivial();
-	if (c.verbose) c.logf("%s (%s) v=%s", op.c_str(), vcname<T>(cls), rl::str(v).c_str());
-	judge(c, cls, op, fromG(Diag<C, Rw>::template call<T, Q>(toGv<(C < Rw ? C : Rw), T, Q>(v))), rl::diagonal(C, Rw, v.e), nullptr, nullptr, 1, CMP_BITS, "", mk([&] { return "v=" + rl::str(v); }));
+	if (c.verbose) c.logf("diagonal%dx%d %s (%s) v=%s", C, Rw, tq.c_str(), vcname<T>(cls), rl::str(v).c_str());
+	return cls;
 }
-template <class T, glm::qualifier Q> static void t_cross(pbt::Ctx& c) {
-	static const std::string tq = "/" + tqn<T, Q>();
+template <class T> NOINLINE static void diag_finish(pbt::Ctx& c, const std::string& tq, int cls, int C, int Rw, const Vx<T>& v, const Mx<T>& got) {
+	auto key = [&] { return "diagonal" + std::to_string(C) + "x" + std::to_string(Rw) + "/" + tq; };
+	auto in = [&] { return "v=" + rl::str(v); };
+	judge(c, cls, mk(key), got, rl::diagonal(C, Rw, v.e), nullptr, nullptr, 1, CMP_BITS, "", mk(in));
+}
+template <int C, int Rw, class T, glm::qualifier Q> static void t_diag(pbt::Ctx& c) {
+	Vx<T> v;
+	int cls = diag_prepare<T>(c, tqn<T, Q>(), C, Rw, v);
+	if constexpr (HAVE(K_DIAG, shx(C, Rw), 0)) diag_finish(c, tqn<T, Q>(), cls, C, Rw, v, fromG(Diag<C, Rw>::template call<T, Q>(toGv<(C < Rw ? C : Rw), T, Q>(v))));
+	else skipped(c);
+}
+template <class T> NOINLINE static int cross_prepare(pbt::Ctx& c, const std::string& tq, Vx<T>& x) {
 	int cls = pick<T>(c);
 	if (cls == VC_GENERAL) cls = VC_SMALL;  // entries are copied or negated, never rounded
 	Src<T> s(c, cls, 3);
-	Vx<T> x(3);
+	x = Vx<T>(3);
 	fill(s, x);
 	c.cls(vcname<T>(cls)); c.cls("matrixCross");
 	Distinct<T> d(false); d.add(x);
 	if (d.good()) c.nontrivial();
-	if (c.verbose) c.logf("matrixCross3/4 %s (%s) x=%s", tqn<T, Q>().c_str(), vcname<T>(cls), rl::str(x).c_str());
+	if (c.verbose) c.logf("matrixCross3/4 %s (%s) x=%s", tq.c_str(), vcname<T>(cls), rl::str(x).c_str());
+	return cls;
+}
+template <class T> NOINLINE static void cross_finish(pbt::Ctx& c, const std::string& tq, int cls, const Vx<T>& x, const Mx<T>& got, int N) {
 	// column k of the cross-product matrix of x is cross(x, e_k), so that M * v = cross(x, v)
-	Mx<T> want3(3, 3), want4(4, 4);
+	Mx<T> want(N, N);
 	for (int k = 0; k < 3; ++k) {
 		Vx<T> e(3); e.e[k] = T(1);
 		Vx<T> col = rl::cross(x, e);
-		for (int r = 0; r < 3; ++r) want3.e[k][r] = want4.e[k][r] = col.e[r];
+		for (int r = 0; r < 3; ++r) want.e[k][r] = col.e[r];
 	}
+	if (N == 4) {  // the element [3][3] of the 4x4 form is not documented (0 in this implementation): counted, not judged
+		if (got.e[3][3] == T(0)) c.cls("matrixCross4[3][3]=0"); else if (got.e[3][3] == T(1)) c.cls("matrixCross4[3][3]=1"); else c.cls("matrixCross4[3][3]=other");
+		want.e[3][3] = got.e[3][3];
+	}
+	auto key = [&] { return "matrixCross" + std::to_string(N) + "/" + tq; };
 	auto in = [&] { return "x=" + rl::str(x); };
-	judge(c, cls, "matrixCross3" + tq, fromG(glm::matrixCross3(toGv<3, T, Q>(x))), want3, nullptr, nullptr, 1, CMP_VALUE, "", mk(in));
-	Mx<T> g4 = fromG(glm::matrixCross4(toGv<3, T, Q>(x)));
-	// the element [3][3] of the 4x4 form is not documented (0 in this implementation): counted, not judged
-	if (g4.e[3][3] == T(0)) c.cls("matrixCross4[3][3]=0"); else if (g4.e[3][3] == T(1)) c.cls("matrixCross4[3][3]=1"); else c.cls("matrixCross4[3][3]=other");
-	want4.e[3][3] = g4.e[3][3];
-	judge(c, cls, "matrixCross4" + tq, g4, want4, nullptr, nullptr, 1, CMP_VALUE, "", mk(in));
+	judge(c, cls, mk(key), got, want, nullptr, nullptr, 1, CMP_VALUE, "", mk(in));
+}
+template <class T, glm::qualifier Q> static void t_cross(pbt::Ctx& c) {
+	Vx<T> x;
+	int cls = cross_prepare<T>(c, tqn<T, Q>(), x);
+	if constexpr (HAVE(K_CROSS, 3, 0)) cross_finish(c, tqn<T, Q>(), cls, x, fromG(glm::matrixCross3(toGv<3, T, Q>(x))), 3); else skipped(c);
+	if constexpr (HAVE(K_CROSS, 4, 0)) cross_finish(c, tqn<T, Q>(), cls, x, fromG(glm::matrixCross4(toGv<3, T, Q>(x))), 4); else skipped(c);
 }
 
+// =============================================================================================
 // div: square matrices divided by an exactly invertible matrix (signed permutation scaled by powers of two): every step of the
 // cofactor inverse and of the following product is exact, so m1/m2 must equal m1 * inverse(m2) exactly.
-template <int N, class T, glm::qualifier Q> static void t_div(pbt::Ctx& c) {
-	static const std::string tq = "/" + tqn<T, Q>(), sh = shp(N, N);
-	const int cls = c.draw(4) == 0 ? VC_ALT : VC_SMALL;
-	Src<T> s(c, cls, N * N + 2 * N);
-	Mx<T> a(N, N);
-	Vx<T> v(N), w(N);
-	fill(s, a); fill(s, v); fill(s, w);
+enum { D_MM, D_CMM, D_MV, D_VM, D_NOPS };
+template <class T> struct DivCase { int cls; Mx<T> a, b, binv; Vx<T> v, w; };
+template <class T> NOINLINE static void div_prepare(pbt::Ctx& c, const std::string& tq, int N, DivCase<T>& k) {
+	k.cls = c.draw(4) == 0 ? VC_ALT : VC_SMALL;
+	Src<T> s(c, k.cls, N * N + 2 * N);
+	k.a = Mx<T>(N, N); k.v = Vx<T>(N); k.w = Vx<T>(N);
+	fill(s, k.a); fill(s, k.v); fill(s, k.w);
 	int perm[4] = {0, 1, 2, 3};
 	for (int i = N - 1; i > 0; --i) { int j = (int)c.draw((uint64_t)i + 1), t = perm[i]; perm[i] = perm[j]; perm[j] = t; }
-	Mx<T> b(N, N), binv(N, N);
+	k.b = Mx<T>(N, N); k.binv = Mx<T>(N, N);
 	bool ident = true;
 	for (int col = 0; col < N; ++col) {
 		int e = (int)c.range(-3, 3);
 		T val = (T)std::ldexp(c.coin() ? -1.0 : 1.0, e);
-		b.e[col][perm[col]] = val;
-		binv.e[perm[col]][col] = T(1) / val;
+		k.b.e[col][perm[col]] = val;            // B e_col = val e_perm[col]
+		k.binv.e[perm[col]][col] = T(1) / val;  // B^-1 e_perm[col] = e_col / val
 		if (perm[col] != col) ident = false;
 	}
-	c.cls(vcname<T>(cls));
+	c.cls(vcname<T>(k.cls));
 	c.cls(ident ? "divisor diagonal" : "divisor permutes");
-	Distinct<T> d(false); d.add(a); d.add(v); d.add(w);
+	Distinct<T> d(false); d.add(k.a); d.add(k.v); d.add(k.w);
 	if (d.good() && !ident) c.nontrivial();
-	if (c.verbose) c.logf("division %s %s (%s) A=%s B=%s v=%s w=%s", sh.c_str(), tqn<T, Q>().c_str(), vcname<T>(cls), rl::str(a).c_str(), rl::str(b).c_str(), rl::str(v).c_str(), rl::str(w).c_str());
-	auto in = [&] { return "A=" + rl::str(a) + " B=" + rl::str(b) + " (B^-1=" + rl::str(binv) + ") v=" + rl::str(v) + " w=" + rl::str(w); };
-	glm::mat<N, N, T, Q> A = toG<N, N, T, Q>(a), B = toG<N, N, T, Q>(b);
-	Mx<T> want = rl::mul(a, binv);
-	judge(c, cls, sh + "/" + sh + tq, fromG(A / B), want, nullptr, nullptr, 1, CMP_VALUE, "", mk(in));
-	{ glm::mat<N, N, T, Q> X = A; glm::mat<N, N, T, Q>* p = &(X /= B); judge(c, cls, sh + "/=" + sh + tq, fromG(X), want, nullptr, nullptr, 1, CMP_VALUE, "", mk(in)); if (p != &X) c.failk(sh + "/=" + sh + tq + "/returns-self", "m /= m2 does not return m"); }
-	judge(c, cls, sh + "/vec" + tq, asM(fromGv(B / toGv<N, T, Q>(v))), asM(rl::mul_mv(binv, v)), nullptr, nullptr, 1, CMP_VALUE, "", mk(in));   // inverse(B) * v
-	judge(c, cls, "vec/" + sh + tq, asM(fromGv(toGv<N, T, Q>(w) / B)), asM(rl::mul_vm(w, binv)), nullptr, nullptr, 1, CMP_VALUE, "", mk(in));   // w * inverse(B)
+	if (c.verbose) c.logf("division %s %s (%s) A=%s B=%s v=%s w=%s", shp(N, N).c_str(), tq.c_str(), vcname<T>(k.cls), rl::str(k.a).c_str(), rl::str(k.b).c_str(), rl::str(k.v).c_str(), rl::str(k.w).c_str());
+}
+template <class T> NOINLINE static void div_finish(pbt::Ctx& c, const std::string& tq, const DivCase<T>& k, int op, const Mx<T>& got, bool self_ok) {
+	const std::string sh = shp(k.a.C, k.a.C);
+	auto key = [&] { return (op == D_MM ? sh + "/" + sh : op == D_CMM ? sh + "/=" + sh : op == D_MV ? sh + "/vec" : "vec/" + sh) + "/" + tq; };
+	auto in = [&] { return "A=" + rl::str(k.a) + " B=" + rl::str(k.b) + " (B^-1=" + rl::str(k.binv) + ") v=" + rl::str(k.v) + " w=" + rl::str(k.w); };
+	Mx<T> want = op <= D_CMM ? rl::mul(k.a, k.binv) : op == D_MV ? asM(rl::mul_mv(k.binv, k.v)) : asM(rl::mul_vm(k.w, k.binv));
+	judge(c, k.cls, mk(key), got, want, nullptr, nullptr, 1, CMP_VALUE, "", mk(in));
+	if (!self_ok) c.failk(key() + "/returns-self", "m /= m2 does not return a reference to m");
+}
+template <int N, class T, glm::qualifier Q> static void t_div(pbt::Ctx& c) {
+	DivCase<T> k;
+	div_prepare<T>(c, tqn<T, Q>(), N, k);
+	glm::mat<N, N, T, Q> A = toG<N, N, T, Q>(k.a), B = toG<N, N, T, Q>(k.b);
+	if constexpr (HAVE(K_DIV, N, D_MM)) div_finish(c, tqn<T, Q>(), k, D_MM, fromG(A / B), true); else skipped(c);
+	if constexpr (HAVE(K_DIV, N, D_CMM)) { glm::mat<N, N, T, Q> X = A; glm::mat<N, N, T, Q>* p = &(X /= B); div_finish(c, tqn<T, Q>(), k, D_CMM, fromG(X), p == &X); } else skipped(c);
+	if constexpr (HAVE(K_DIV, N, D_MV)) div_finish(c, tqn<T, Q>(), k, D_MV, asM(fromGv(B / toGv<N, T, Q>(k.v))), true); else skipped(c);   // inverse(B) * v
+	if constexpr (HAVE(K_DIV, N, D_VM)) div_finish(c, tqn<T, Q>(), k, D_VM, asM(fromGv(toGv<N, T, Q>(k.w) / B)), true); else skipped(c);   // w * inverse(B)
 }
 
 // =============================================================================================
@@ -689,7 +847,7 @@ FAM9(F_MULVEC, X_MULVEC)
 FAM9(F_FUNC, X_FUNC)
 FAM9(F_ELEM, X_ELEM)
 FAM9(F_ACCESS, X_ACCESS)
-template <int C2, int R2, class T, glm::qualifier Q> static void conv_to(pbt::Ctx& c, int dst) {
+template <int C2, int R2, class T, glm::qualifier Q> static void conv_from(pbt::Ctx& c, int dst) {
 	switch (dst) {
 #define X(I, C, R) case I: t_conv<C, R, C2, R2, T, Q>(c); break;
 		SHAPES(X)
@@ -700,7 +858,7 @@ template <class T, glm::qualifier Q> struct Fam<F_CONVERT, T, Q> {
 	static void run(pbt::Ctx& c) {
 		int k = (int)c.draw(81);
 		switch (k / 9) {
-#define X(I, C, R) case I: conv_to<C, R, T, Q>(c, k % 9); break;
+#define X(I, C, R) case I: conv_from<C, R, T, Q>(c, k % 9); break;
 			SHAPES2(X)
 #undef X
 		}
@@ -708,13 +866,12 @@ template <class T, glm::qualifier Q> struct Fam<F_CONVERT, T, Q> {
 };
 template <class T, glm::qualifier Q> struct Fam<F_GTX, T, Q> {
 	static void run(pbt::Ctx& c) {
-		int k = (int)c.draw(16);
-		switch (k) {
-		case 0: case 1: t_square<2, T, Q>(c); break;
-		case 2: case 3: t_square<3, T, Q>(c); break;
-		case 4: case 5: t_square<4, T, Q>(c); break;
-		case 6: t_cross<T, Q>(c); break;
-#define X(I, C, R) case 7 + I: t_diag<C, R, T, Q>(c); break;
+		switch (c.draw(24)) {
+		case 0: case 1: case 2: case 3: t_square<2, T, Q>(c); break;
+		case 4: case 5: case 6: case 7: t_square<3, T, Q>(c); break;
+		case 8: case 9: case 10: case 11: t_square<4, T, Q>(c); break;
+		case 12: case 13: case 14: t_cross<T, Q>(c); break;
+#define X(I, C, R) case 15 + I: t_diag<C, R, T, Q>(c); break;
 			SHAPES(X)
 #undef X
 		}
@@ -735,8 +892,11 @@ template <int FAM, class... E> struct Prop<FAM, Group<E...>> {
 	}
 };
 
+#ifndef C02_PROBE
+// =============================================================================================
+// registration
 #define RULE_DISTINCT "non-trivial = no zero entry and all entries of all operands pairwise distinct (8-bit signed small-int class: within every row, column and vector), so any transposed or repeated index changes the result"
-#define REG(FAM, G, GN, NAME, Q_, T_, RULE) static pbt::Reg reg_##FAM##_##GN(NAME "/" #GN, &Prop<FAM, G>::run, (uint64_t)(Q_), (uint64_t)(T_), RULE)
+#define REG(FAM, G, GN, NAME, Q_, T_, RULE) static pbt::Reg reg_##FAM##_##GN(NAME "/" GS_##GN, &Prop<FAM, G>::run, (uint64_t)(Q_), (uint64_t)(T_), RULE)
 // C02_FAMS: bit mask of the families registered by this translation unit (compile-time split of one element-type group)
 #ifndef C02_FAMS
 #define C02_FAMS 0xff
@@ -785,31 +945,91 @@ template <int FAM, class... E> struct Prop<FAM, Group<E...>> {
 
 #if C02_PART == 0
 typedef Group<TQ<float, glm::highp>> G_float;
-typedef Group<TQ<double, glm::highp>> G_double;
-REG_GROUP(G_float, float, 1, 1)
-REG_GROUP(G_double, double, 1, 1)
-REG_DIV(G_float, float, 1, 1)
-REG_DIV(G_double, double, 1, 1)
+#define GS_float "float"
+REG_GROUP(G_float, float, 1, 0.4)
+REG_DIV(G_float, float, 1, 0.4)
+
+// ---- instantiation: units whose GLM expression is declared for the element type but does not compile (found by the pre-pass)
+struct Missing { int kind, s1, s2, ty; const char* err; };
+static const Missing MISSING[] = {
+#define X(K, S1, S2, TY, ERR) {K, S1, S2, TY, ERR},
+	C02_MISSING(X)
+#undef X
+	{-1, 0, 0, 0, ""}};
+static std::string type_name(int ty) {
+	static const char* const B[10] = {"float", "double", "int8", "uint8", "int16", "uint16", "int32", "uint32", "int64", "uint64"};
+	return std::string(B[ty & 15]) + (ty >> 4 == 0 ? "" : ty >> 4 == 1 ? ".mediump" : ".lowp");
+}
+static std::string shape_name(int s) { return shp(2 + s / 3, 2 + s % 3); }
+static std::string unit_name(const Missing& m) {
+	const std::string t = "/" + type_name(m.ty), s = m.kind == K_MULC || m.kind == K_SQUARE || m.kind == K_DIV ? shp(m.s1, m.s1) : m.kind == K_CROSS ? "" : shape_name(m.s1);
+	const int C = 2 + m.s1 / 3, Rw = 2 + m.s1 % 3;
+	switch (m.kind) {
+	case K_MUL: return s + "*" + shp(m.s2, C) + t;
+	case K_MULC: return s + "*=" + s + t;
+	case K_MV: return s + "*vec" + std::to_string(C) + t;
+	case K_VM: return "vec" + std::to_string(Rw) + "*" + s + t;
+	case K_TRANSPOSE: return "transpose/" + s + t;
+	case K_OUTER: return "outerProduct/vec" + std::to_string(Rw) + ",vec" + std::to_string(C) + t;
+	case K_COMPMULT: return "matrixCompMult/" + s + t;
+	case K_ELEM: return std::string(m.s2 >= 0 && m.s2 < E_NOPS ? ELEM_NAME[m.s2] : "?") + "/" + s + t;
+	case K_ACCESS: return "access/" + s + t;
+	case K_CONV: return s + "(" + shape_name(m.s2) + ")" + t;
+	case K_CTOR: return s + "(" + (m.s2 >= 0 && m.s2 < CT_NOPS ? CTOR_NAME[m.s2] : "?") + ")" + t;
+	case K_SQUARE: return std::string(m.s2 >= 0 && m.s2 < SQ_NOPS ? SQ_NAME[m.s2] : "?") + "/" + s + t;
+	case K_CROSS: return "matrixCross" + std::to_string(m.s1) + t;
+	case K_DIAG: return "diagonal" + std::to_string(C) + "x" + std::to_string(Rw) + t;
+	case K_DIV: return std::string(m.s2 == D_MM ? "m/m" : m.s2 == D_CMM ? "m/=m" : m.s2 == D_MV ? "m/v" : "v/m") + "/" + s + t;
+	}
+	return "?";
+}
+static void prop_inst(pbt::Ctx& c) {
+	const int N = (int)(sizeof(MISSING) / sizeof(MISSING[0])) - 1;
+	int i = (int)c.draw((uint64_t)(N > 0 ? N : 1));
+	c.metric("instantiation units probed (every guarded GLM expression x shape x element type)", (double)C02_UNITS_PROBED);
+	if (N == 0) { c.logf("all %d units instantiate", (int)C02_UNITS_PROBED); return; }
+	std::string n = unit_name(MISSING[i]);
+	c.logf("%s: declared for this element type, body does not compile", n.c_str());
+	c.nontrivial();
+	c.cls("uninstantiable");
+	c.failk("uninstantiable/" + n, "%s is declared for this element type but its body does not compile (first error: %s)", n.c_str(), MISSING[i].err);
+}
+PBT_SWEEP("instantiation", prop_inst, (sizeof(MISSING) / sizeof(MISSING[0])) > 1 ? (sizeof(MISSING) / sizeof(MISSING[0])) - 1 : 1, 1, 1,
+          "every guarded GLM expression (operation x shape x element type x qualifier) compiled with -fsyntax-only by the pre-pass (structured bisection); the units that do not instantiate are enumerated here; all are non-trivial");
 int main(int argc, char** argv) { return pbt::pbt_main(argc, argv, "C02"); }
 #elif C02_PART == 1
-typedef Group<TQ<glm::int32, glm::highp>> G_int32;
-typedef Group<TQ<glm::uint32, glm::highp>> G_uint32;
-REG_GROUP(G_int32, int32, 1, 1)
-REG_GROUP(G_uint32, uint32, 1, 1)
+typedef Group<TQ<double, glm::highp>> G_double;
+#define GS_double "double"
+REG_GROUP(G_double, double, 1, 0.4)
+REG_DIV(G_double, double, 1, 0.4)
 #elif C02_PART == 2
-typedef Group<TQ<glm::int8, glm::highp>, TQ<glm::uint8, glm::highp>> G_int8;
-REG_GROUP(G_int8, int8_uint8, 0.5, 1)
+typedef Group<TQ<glm::int32, glm::highp>> G_int32;
+#define GS_int32 "int32"
+REG_GROUP(G_int32, int32, 1, 0.4)
 #elif C02_PART == 3
-typedef Group<TQ<glm::int16, glm::highp>, TQ<glm::uint16, glm::highp>> G_int16;
-REG_GROUP(G_int16, int16_uint16, 0.5, 1)
+typedef Group<TQ<glm::uint32, glm::highp>> G_uint32;
+#define GS_uint32 "uint32"
+REG_GROUP(G_uint32, uint32, 1, 0.4)
 #elif C02_PART == 4
-typedef Group<TQ<glm::int64, glm::highp>, TQ<glm::uint64, glm::highp>> G_int64;
-REG_GROUP(G_int64, int64_uint64, 0.5, 1)
+typedef Group<TQ<glm::int8, glm::highp>, TQ<glm::uint8, glm::highp>> G_int8;
+#define GS_i8 "int8,uint8"
+REG_GROUP(G_int8, i8, 0.5, 0.4)
 #elif C02_PART == 5
-typedef Group<TQ<float, glm::mediump>, TQ<float, glm::lowp>, TQ<double, glm::lowp>> G_fq;
-REG_GROUP(G_fq, float_double_mediump_lowp, 0.5, 1)
-REG_DIV(G_fq, float_double_mediump_lowp, 0.5, 1)
+typedef Group<TQ<glm::int16, glm::highp>, TQ<glm::uint16, glm::highp>> G_int16;
+#define GS_i16 "int16,uint16"
+REG_GROUP(G_int16, i16, 0.5, 0.4)
 #elif C02_PART == 6
-typedef Group<TQ<glm::int32, glm::mediump>, TQ<glm::uint32, glm::lowp>> G_iq;
-REG_GROUP(G_iq, int32_uint32_mediump_lowp, 0.5, 1)
+typedef Group<TQ<glm::int64, glm::highp>, TQ<glm::uint64, glm::highp>> G_int64;
+#define GS_i64 "int64,uint64"
+REG_GROUP(G_int64, i64, 0.5, 0.4)
+#elif C02_PART == 7
+typedef Group<TQ<float, glm::mediump>, TQ<double, glm::lowp>> G_fq;
+#define GS_fq "float.mediump,double.lowp"
+REG_GROUP(G_fq, fq, 0.5, 0.4)
+REG_DIV(G_fq, fq, 0.5, 0.4)
+#elif C02_PART == 8
+typedef Group<TQ<glm::int32, glm::lowp>, TQ<glm::uint32, glm::mediump>> G_iq;
+#define GS_iq "int32.lowp,uint32.mediump"
+REG_GROUP(G_iq, iq, 0.5, 0.4)
 #endif
+#endif  // !C02_PROBE
